@@ -278,7 +278,13 @@ class Incarnation:
     def _leaf(self, x, leaf, arr_dtype="float64"):
         if isinstance(x, list):
             a = np.array(x, dtype=np.dtype(arr_dtype))
-            return self.jnp.array(a) if leaf in ("jax", "float") else a
+            return self.jnp.array(a) if leaf in ("jax", "float", "int", "jaxint") else a
+        if leaf in ("int", "npint", "jaxint"):
+            # integer-valued parameters written the way users write them (wage=2, k=1); other
+            # values of the same set stay floats of the corresponding family
+            if float(x).is_integer():
+                return int(x) if leaf == "int" else (np.int64(int(x)) if leaf == "npint" else self.jnp.array(int(x)))
+            leaf = {"int": "float", "npint": "np", "jaxint": "jax"}[leaf]
         if leaf == "float":
             return float(x)
         if leaf == "np":
